@@ -43,7 +43,7 @@ ASSUMPTIONS = [
 ]
 BOUNDS = "BMC from reset; quick: mps 8, handler level K=15 (start + latency + a full packet + stalls), request level " \
          "K=22 (two packets + ZLP or a retry); thorough: mps 8/16 required (handler K=20/25 incl. a second request, request " \
-         "level K=36/44 = three packets), mps 32/64 best effort (K=mps+8, assertions only)"
+         "level K=30 = three packets at mps 8; mps 16 K=40 best effort), mps 32/64 best effort (K=mps+8, assertions only)"
 OUTSIDE = "descriptors longer than 2*mps+3 bytes except in the suite collection; foreign ACK handshakes (for other " \
           "endpoints) between a lost ACK and the retry (C08/C14 territory); SETUP arriving in the middle of a " \
           "request (C07); wLength == 0"
@@ -227,12 +227,12 @@ def queries(tier):
         hcfg = [("block", "sparse", 8, 15), ("distributed", "sparse", 8, 15), ("mux", "sparse", 8, 15)]
         rcfg = [(False, "sparse", 8, False, 22), (True, "sparse", 8, False, 22), (False, "sparse", 8, True, 20)]
     else:
-        hcfg = [(v, k, 8, 20) for v in ("block", "distributed", "mux") for k in ("sparse", "dense")]
+        hcfg = [(v, k, 8, 18) for v in ("block", "distributed", "mux") for k in ("sparse", "dense")]
         hcfg += [(v, "sparse", 16, 25) for v in ("block", "distributed", "mux")]
         hcfg += [("block", "suite", 8, 16), ("distributed", "suite", 8, 16), ("block", "dense", 32, 40),
                  ("distributed", "sparse", 32, 40), ("block", "sparse", 64, 72), ("distributed", "dense", 64, 72)]
-        rcfg = [(ab, k, 8, rt, 36) for ab in (False, True) for k in ("sparse", "dense") for rt in (False, True)]
-        rcfg += [(False, "sparse", 16, False, 44), (True, "sparse", 16, True, 44)]
+        rcfg = [(False, "sparse", 8, False, 30), (True, "sparse", 8, False, 30), (False, "dense", 8, True, 30),
+                (True, "dense", 8, True, 30), (False, "sparse", 16, False, 40)]
     stmt = ["payload", "first", "last", "gap", "zlp", "stall_exists", "data_nonexistent", "no_response", "spurious",
             "too_long"]
     for variant, kind, mps, K in hcfg:
@@ -249,7 +249,7 @@ def queries(tier):
     for ab, kind, mps, rt, K in rcfg:
         f = (lambda a=ab, b=kind, c=mps, d=rt: RequestHarness(a, b, c, d))
         tag = f"{'dist' if ab else 'block'}_{kind}_mps{mps}{'_rt' if rt else ''}"
-        qs.append(Query(f"bmc_r_{tag}", f, K, timeout=900, split=True,
+        qs.append(Query(f"bmc_r_{tag}", f, K, timeout=900, split=True, required=(mps == 8),
                         covers=(["full_packet", "short_packet", "zlp", "stall", "continuation", "exact_multiple_zlp",
                                  "retransmission", "status_after_data"] if quick else None),
                         asserts=stmt if quick else None,
